@@ -317,6 +317,7 @@ func main() {
 	// C09 (extract/lifecycle.go): never exits; a problem is recorded inside the generated file
 	writeIfChanged(filepath.Join(outDir, "Lifecycle.lean"), genLifecycle(repoRoot))
 	writeIfChanged(filepath.Join(outDir, "ConfigLoad.lean"), genConfigLoad(repoRoot)) // C14 (extract/configload.go): never exits
+	writeIfChanged(filepath.Join(outDir, "OpenAPIRanges.lean"), genOpenAPIRanges(repoRoot)) // C07 (extract/oaranges.go): never exits
 	// C15 / C17 (extract/compress.go, extract/gates.go, walker extract/mwskel.go): never exit either
 	writeIfChanged(filepath.Join(outDir, "Compress.lean"), genCompress(repoRoot))
 	writeIfChanged(filepath.Join(outDir, "Gates.lean"), genGates(repoRoot))
